@@ -139,6 +139,7 @@ class Check:
     def coq_build(self, targets, timeout=1500):
         """Regenerate Gen, build targets (full .vo), collect Print Assumptions of every
         Theorem in the Properties file(s) among targets. Returns True iff all good."""
+        self._targets = list(targets)
         lock = open(BUILD / ".lock", "w")
         fcntl.flock(lock, fcntl.LOCK_EX)
         try:
@@ -233,8 +234,41 @@ class Check:
                     self.discharged += 1
         return ok
 
+    def _rebuild_quietly(self):
+        """Another check (e.g. one pointed at a different checkout by PINT_REPO) rebuilt coq/Gen between this
+        check's build and one of its evaluations: regenerate from THIS check's source and make the targets again."""
+        import threading
+        if not hasattr(Check, "_rebuild_guard"):
+            Check._rebuild_guard = threading.Lock()
+        with Check._rebuild_guard:
+            lock = open(BUILD / ".lock", "w")
+            fcntl.flock(lock, fcntl.LOCK_EX)
+            try:
+                self.generators()
+                sh(f"timeout 1500 make -j{NCPU} " + " ".join(getattr(self, "_targets", [])), cwd=COQ, timeout=1560)
+            finally:
+                fcntl.flock(lock, fcntl.LOCK_UN)
+                lock.close()
+
     def coq_eval(self, name, text, timeout=900):
         """Compile a throw-away .v under build/ against the built development; returns (rc, stdout)."""
+        for attempt in range(3):
+            if self._gen_disturbed():
+                self._disturbed = True
+                self._rebuild_quietly()
+            rc, out = self._coq_eval_once(name, text, timeout)
+            if self._gen_disturbed():
+                self._disturbed = True
+            if rc != 0 and ("makes inconsistent assumptions" in out or "Compiled library" in out or "is not a valid" in out
+                            or "Cannot find a physical path" in out or "bad version number" in out) and attempt < 2:
+                self.extra["rebuilds_after_concurrent_regeneration"] = self.extra.get("rebuilds_after_concurrent_regeneration", 0) + 1
+                self._disturbed = True
+                self._rebuild_quietly()
+                continue
+            break
+        return rc, out
+
+    def _coq_eval_once(self, name, text, timeout=900):
         f = BUILD / f"{name}_{os.getpid()}.v"
         f.write_text(text)
         try:
@@ -311,7 +345,23 @@ class Check:
                                    indent=1, default=str))
         self.violations.append((key, desc, str(path), no_input))
 
+    def _gen_disturbed(self):
+        """True when coq/Gen no longer holds what this check generated: another process (a check pointed at a
+        different checkout through PINT_REPO) regenerated it while this one was evaluating."""
+        for rel, text in getattr(self, "_gen_texts", {}).items():
+            try:
+                if (COQ / rel).read_text() != text:
+                    return True
+            except OSError:
+                return True
+        return False
+
     def finish(self):
+        n = int(os.environ.get("VERIF_RERUN", "0"))
+        if (self.violations or self.broken) and (getattr(self, "_disturbed", False) or self._gen_disturbed()) and n < 3:
+            print(f"NOTE: coq/Gen was regenerated by another process during this run of {self.pid}; running the check again", flush=True)
+            os.environ["VERIF_RERUN"] = str(n + 1)
+            os.execv(sys.executable, [sys.executable, "-m", "harness.check"] + sys.argv[1:])
         # a broken proof / tie / correspondence with no concrete failing input is still a violation
         if self.broken and not any(not v[3] for v in self.violations):
             self.violation("broken:" + self.broken[0][:80], "no longer shown to hold",
